@@ -27,6 +27,7 @@ use crate::oracle::eval::{self, EvalError, EK, VK};
 use crate::oracle::ring::{Cf, Num, R};
 use crate::snap::{eval_graph, graph_json, snap, Snap, Tens, FLOAT_TOL};
 use quizx::graph::{BasisElem, EType, GraphLike, VType, V};
+use num::One;
 use serde_json::{json, Value};
 use std::collections::{BTreeMap, BTreeSet};
 
@@ -1024,7 +1025,7 @@ pub fn run() {
     c.assume("copy / subgraph_from_vertices are outside the statement: only vertex/edge structure is judged; boundary lists and scalar of the copy are observed, not judged");
 
     let arb = Shape { max_spiders: 5, pool: PhasePool::Exact, graph_like: false, bare_p: 0.15, h_p: 0.35, multi_p: 0.3, same_role_pairs: false };
-    let n_pairs = t.pick(500usize, 30_000usize);
+    let n_pairs = t.pick(2500usize, 40_000usize);
     let max_sp = t.pick(5usize, 7usize);
 
     par_cases("plug-arbitrary-exact", n_pairs, move |r, i| {
@@ -1072,7 +1073,7 @@ pub fn run() {
         pair_case("plug-caps-cups", i, r, g, h);
     });
 
-    let n_un = t.pick(300usize, 15_000usize);
+    let n_un = t.pick(1200usize, 15_000usize);
     let max_w = t.pick(3usize, 4usize);
     par_cases("unary-arbitrary-exact", n_un, move |r, i| {
         let sh = Shape { max_spiders: max_sp, ..arb };
@@ -1094,11 +1095,12 @@ pub fn run() {
     });
     par_cases("unary-gen-random", n_un / 2, move |r, i| {
         // the shared generator (arbitrary boundary split, isolated spiders, bare wires)
-        let d = gen_random(r, &DiagParams { max_spiders: max_sp, max_bnd: 5, pool: PhasePool::CliffordHeavy, graph_like: r.chance(0.3), bare_wires: true, var_prob: 0.0 });
+        let gl = r.chance(0.3);
+        let d = gen_random(r, &DiagParams { max_spiders: max_sp, max_bnd: 5, pool: PhasePool::CliffordHeavy, graph_like: gl, bare_wires: true, var_prob: 0.0 });
         unary_case("unary-gen-random", i, r, d);
     });
 
-    let n_id = t.pick(1500usize, 60_000usize);
+    let n_id = t.pick(6000usize, 60_000usize);
     par_cases("identity-near", n_id, move |r, i| {
         let (d, variant) = gen_near_identity(r);
         identity_case("identity-near", i, r, d, variant);
